@@ -117,7 +117,9 @@ Theorem measure_is_count : forall evs a b, measure evs a b = count_in (covers ev
 Proof.
   induction evs as [|x r IH]; intros a b.
   - simpl. symmetry. apply count_in_false. reflexivity.
-  - cbn [measure]. rewrite !IH.
+  - cbn [measure]. destruct (b <=? a) eqn:Hba.
+    { symmetry. apply count_in_empty. lia. }
+    rewrite !IH.
     rewrite (count_in_ext (covers (x :: r)) (fun t => inside x t || covers r t)) by reflexivity.
     rewrite count_in_or_and, count_in_inside.
     rewrite (count_in_ext (fun t => inside x t && covers r t)
